@@ -176,7 +176,7 @@ pub(crate) mod proofs {
         const P: usize = $p;
         type Pool = OgreArrayPoolAllocator<Droppy, $fl<u32, P>, P>;
 
-        // @props C05 C13
+        // @props C05 C13 C14
         #[kani::proof] #[kani::unwind($unw)] #[kani::stub(std::hint::spin_loop, noop)]
         fn dealloc_drops_exactly_once() {
             let pool = Pool::new();
@@ -213,7 +213,7 @@ pub(crate) mod proofs {
         pub(crate) struct Watcher(pub u8);
         impl Drop for Watcher { fn drop(&mut self) { let p = PROBE.load(SeqCst); if !p.is_null() { FREE_AT_DROP.store(free_count(unsafe { &*p }), SeqCst); } } }
 
-        // @props C05 C13 C01
+        // @props C05 C13 C01 C14
         #[kani::proof] #[kani::unwind($unw)] #[kani::stub(std::hint::spin_loop, noop)]
         fn destructor_runs_before_the_slot_is_allocatable_again() {
             // mechanism obligation: sequentially the order "destroy, then put the id on the free list" is unobservable from outside, but it is
